@@ -223,3 +223,78 @@ Theorem C18_completes_partial : forall tol P,
   exists P', dedup tol P = Ok P'.
 Proof. exact dedup_completes. Qed.
 Print Assumptions C18_completes_partial.
+
+(* a VOL, U, LAT or FILL card in the data block: the call always raises (after the cells were re-pointed, before any
+   surface is removed), whatever the surfaces are *)
+Theorem C18_completes_refuted_cellmod : forall tol P r,
+  scan tol (p_surfs P) = Ok r -> dedup_call true tol P = Err MalformedInputError.
+Proof. exact cellmod_always_fails. Qed.
+Print Assumptions C18_completes_refuted_cellmod.
+
+(* without such a card the call is [dedup], the function all other theorems are about *)
+Theorem C18_call_without_cellmod : forall tol P, dedup_call false tol P = dedup tol P.
+Proof. exact no_cellmod_same. Qed.
+Print Assumptions C18_call_without_cellmod.
+
+(* ------------------------------------------------------------------ 8. the code with proposed_fixes/C18-1..3 *)
+(* Model/Dedup.v, suffix _fx: find_duplicate_surfaces compare the boundary condition and both surfaces' live
+   periodicity (C18-1), Transform.equivalent treats rotation matrices of different length as different (C18-2),
+   the call does not re-run the pointer resolution and re-points periodic partners through the map (C18-3).
+   Every statement of the property then holds at full strength: the side conditions left are unique numbers, the
+   class / arity fixed by the mnemonic, displacement vectors of equal length (always three) and, for leaves,
+   cell.surfaces covering the leaves - which the call now preserves, so it can be repeated. *)
+Theorem C18_fx_only_true_duplicates : forall tol P del m,
+  wf P -> Forall class_ok (p_surfs P) -> disp_uniform (p_surfs P) ->
+  scan_fx tol (p_surfs P) = Ok (del, m) ->
+  forall d s sd ss, lookup d m = Some s ->
+    In sd (p_surfs P) -> In ss (p_surfs P) -> s_num sd = d -> s_num ss = s -> true_dup tol ss sd.
+Proof. exact fx_only_true_duplicates. Qed.
+Print Assumptions C18_fx_only_true_duplicates.
+
+Theorem C18_fx_region : forall tol P P' del m,
+  scan_fx tol (p_surfs P) = Ok (del, m) -> dedup_fx tol P = Ok P' ->
+  Forall2 (fun c c' =>
+             c_num c' = c_num c /\ shape (c_geom c') = shape (c_geom c) /\
+             forall es ec, identifies m es -> region es ec (c_geom c') = region es ec (c_geom c))
+          (p_cells P) (p_cells P').
+Proof. exact fx_region. Qed.
+Print Assumptions C18_fx_region.
+
+Theorem C18_fx_surfaces : forall tol P P' del m,
+  wf P -> scan_fx tol (p_surfs P) = Ok (del, m) -> dedup_fx tol P = Ok P' ->
+  p_surfs P' = filter (fun s => negb (memZ (s_num s) del)) (map (repoint_periodic m) (p_surfs P)) /\
+  (forall s, s_perptr s = 0 \/ lookup (s_perptr s) m = None -> repoint_periodic m s = s) /\
+  map s_num (p_surfs P') = filter (fun n => negb (memZ n del)) (map s_num (p_surfs P)).
+Proof. exact fx_surfaces. Qed.
+Print Assumptions C18_fx_surfaces.
+
+Theorem C18_fx_no_dangling_leaf : forall tol P P' del m,
+  wf P -> links P -> Forall class_ok (p_surfs P) -> disp_uniform (p_surfs P) ->
+  scan_fx tol (p_surfs P) = Ok (del, m) -> dedup_fx tol P = Ok P' ->
+  links P' /\
+  forall c', In c' (p_cells P') -> forall n, In n (leaf_surfs (c_geom c')) -> ~ In n del.
+Proof. exact fx_no_dangling_leaf. Qed.
+Print Assumptions C18_fx_no_dangling_leaf.
+
+Theorem C18_fx_no_dangling_periodic : forall tol P P' del m,
+  wf P -> Forall class_ok (p_surfs P) -> disp_uniform (p_surfs P) ->
+  (forall s, In s (p_surfs P) -> s_perptr s = 0 \/ In (s_perptr s) (map s_num (p_surfs P))) ->
+  scan_fx tol (p_surfs P) = Ok (del, m) -> dedup_fx tol P = Ok P' ->
+  forall s', In s' (p_surfs P') -> s_perptr s' = 0 \/ In (s_perptr s') (map s_num (p_surfs P')).
+Proof. exact fx_no_dangling_periodic. Qed.
+Print Assumptions C18_fx_no_dangling_periodic.
+
+Theorem C18_fx_completes : forall tol P, disp_uniform (p_surfs P) -> exists P', dedup_fx tol P = Ok P'.
+Proof. exact fx_completes. Qed.
+Print Assumptions C18_fx_completes.
+
+(* the witnesses of the refuted theorems under the repaired code: nothing is merged, nothing dangles, the edited
+   pointer stays, the call returns; the true duplicates of the example are merged as before *)
+Example C18_fx_witnesses :
+  scan_fx tol4 (p_surfs w_bc) = Ok ([], []) /\ scan_fx tol4 (p_surfs w_per) = Ok ([], []) /\
+  scan_fx tol4 (p_surfs w_rot) = Ok ([], []) /\ scan_fx tol4 (p_surfs w_dangle) = Ok ([2], [(2, 1)]) /\
+  dedup_fx tol4 w_revert = Ok w_revert /\ scan_fx tol4 (p_surfs w_index) = Ok ([], []) /\
+  scan_fx tol4 (p_surfs ex_prob) = Ok (ex_del, ex_map) /\
+  disp_uniform (p_surfs ex_prob) /\ disp_uniform (p_surfs w_index).
+Proof. exact fx_witnesses. Qed.
+Print Assumptions C18_fx_witnesses.
